@@ -63,6 +63,26 @@ WHAT = {
  "C14-4": "ExitStack.callback: sync callbacks registered through awaitify(lambda) - a truthy return value suppresses",
  "C16-3": "_Grouper staleness judged by key (`target_key != self._target_key`) - an old handle revives when its key recurs",
  "C16-4": "_GroupByState.target_key defaults to None / `is not None` test - a None key breaks the run scan",
+ "C03-3": "scoped_iter: `hasattr(iterable, 'aclose')` asked of the argument - sync iterables get the raw, closable internal iterator",
+ "C03-4": "LRUAsyncCallable.__get__: bind only what has `__get__` - cached partial/callable-object flavours are not bound as methods",
+ "C07-3": "_BorrowedAsyncIterator: asend/athrow rebinding moved from _aclose_wrapper into aclose - a scope-ended handle still reaches the underlying iterator",
+ "C07-4": "borrow(): re-borrowing unwraps to `iterator.__wrapped__` - the second handle outlives the first",
+ "C08-3": "_ScopedAsyncIteratorContext.__aexit__: closes `_wrapper` directly instead of `_aclose_wrapper()` - asend on the dead handle still yields",
+ "C08-4": "_ScopedAsyncIteratorContext.__aexit__: underlying aclose before the handle is ended - a failing/cancelled aclose leaves the handle alive",
+ "C11-3": "MemoizedLRU: a duplicate overlapping miss is re-counted as a hit - misses != invocations (negative after cache_clear)",
+ "C11-4": "CachedLRU: `full` flag not reset by cache_discard - popitem on an empty store when a miss completes",
+ "C13-3": "__aexit__: `return not isinstance(exc_val, StopAsyncIteration)` - a swallowed StopAsyncIteration of the block propagates",
+ "C13-4": "__aexit__: every non-Exception BaseException closes the generator instead of being thrown into it",
+ "C15-3": "ContextDecorator inner: `result = await func(...)` inside, `return result` after the block - UnboundLocalError when the context suppresses",
+ "C15-4": "_recreate_cm returns self while the stored generator `has a frame and is not running` - a call overlapping the first call's body shares its generator",
+ "C17-3": "sorted: more than 16384 items are sorted through loop.run_in_executor - asyncio-only, suspends on a library Future",
+ "C17-4": "anext(it, default): hand-written `yield next(pending)` stepping - loop replies and thrown exceptions are dropped",
+ "C18-3": "merge: finally closes only iterators on the heap - cancellation while the first items are fetched leaks the later sources",
+ "C18-4": "accumulate: first value fetched before entering ScopedIter - cancellation during that fetch leaves a class-based source open",
+ "C19-3": "sync: `try: return await result / except TypeError: return result` - a TypeError of the awaited body is swallowed",
+ "C19-4": "apply: positional awaitables resolved with `pending.pop()` - arguments arrive reversed",
+ "C20-3": "_largest: items tying with the worst kept key are pushed instead of discarded - the heap grows with the stream",
+ "C20-4": "chain._chain_iterator: sub-iterators collected in a list and closed together at the end - exhausted sub-iterators stay alive",
 }
 rows = []
 for d in sorted(glob.glob(os.path.join(HERE, "..", "seeded", "*", ""))):
@@ -79,7 +99,8 @@ for d in sorted(glob.glob(os.path.join(HERE, "..", "seeded", "*", ""))):
     meta = {"id": sid, "breaks_property": prop, "what": WHAT.get(sid, ""), "files_changed": files,
             "origin": "independent sub-agent given only the property text and a scratch worktree of /repo",
             "needs_to_manifest": "see notes.md", "confirmed_here": conf,
-            "ran": f"tools/seedtest.sh /verif/seeded/{sid}/patch.diff {prop}   (git -C /repo apply; ./check {prop}; git -C /repo checkout -- .)",
+            "ran": f"tools/seedcopy.sh {sid}   (git archive of /repo HEAD into a scratch copy; git apply patch.diff there; ./check {prop} --repo <copy>; copy removed) "
+                   f"- same check as tools/seedtest.sh, which applies the patch to /repo itself and reverts it",
             "check_exit": int(ex.group(1)) if ex else None, "detected": bool(viol), "failed_obligations": obl,
             "counterexample_replayed_natively": replayed}
     json.dump(meta, open(d + "meta.json", "w"), indent=1)
